@@ -194,7 +194,8 @@ impl LogInnerManager {
             msg_count,
             current_index_count,
             need_seek_at_write: false,
-            split_off_index: std::cmp::max(split_off_index, start_index),
+            // read_records hides everything below split_off_index; the last record is read first
+            split_off_index: start_index,
         };
         if msg_count > 0 {
             let end_index = this.get_end_index();
@@ -204,6 +205,7 @@ impl LogInnerManager {
                 }
             }
         }
+        this.split_off_index = std::cmp::max(split_off_index, start_index);
         Ok(this)
     }
 
